@@ -131,7 +131,8 @@ theorem TrackPost.core (t : TrackPost s s1 m x) (i : Nat) (h1 : i ≠ m) (h2 : i
 end
 
 theorem track_inv {p : Prog} {s s1 : State} {m x : Nat} (h : InvR p s) (t : TrackPost s s1 m x)
-    (hx : x < m) (hk : (s.get m).kind = .memo) (hr : (s.get m).running = true) : InvR p s1 := by
+    (hx : x < m) (hmr : (s.get m).kind = .memo → (s.get m).running = true)
+    (hkx : (s.get x).kind ≠ .eff) : InvR p s1 := by
   have hxm : x ≠ m := Nat.ne_of_lt hx
   constructor
   · exact t.len.trans h.len
@@ -169,11 +170,11 @@ theorem track_inv {p : Prog} {s s1 : State} {m x : Nat} (h : InvR p s) (t : Trac
       rw [t.subs_x, mem_subscribe] at hw
       rcases hw with hw | rfl
       · exact h.closed a w hka hsa hw hkw
-      · exact h.runNC w hk hr
+      · exact h.runNC w hkw (hmr hkw)
     · rw [t.subs hxm a ha] at hw; exact h.closed a w hka hsa hw hkw
   · intro i hki hri
     rw [t.kind] at hki; rw [t.running] at hri
-    have him : i ≠ m := by intro e; subst e; rw [hr] at hri; cases hri
+    have him : i ≠ m := by intro e; subst e; rw [hmr hki] at hri; cases hri
     rw [t.sources hxm i him, t.seen]; exact h.srcSeen i hki hri
   · intro i hki hri hv
     rw [t.kind] at hki; rw [t.running] at hri; rw [t.val] at hv; rw [t.st]
@@ -191,8 +192,18 @@ theorem track_inv {p : Prog} {s s1 : State} {m x : Nat} (h : InvR p s) (t : Trac
     exact ⟨e, by rw [t.seen]; exact he, by rw [t.ver]; exact hne⟩
   · intro w e he
     rw [t.seen] at he; rw [t.ver]; exact h.verLe w e he
+  · intro w a ha
+    rw [t.kind]
+    by_cases hw : w = m
+    · subst hw
+      rw [t.sources_m, List.mem_append, List.mem_singleton] at ha
+      rcases ha with ha | rfl
+      · exact h.srcData w a ha
+      · exact hkx
+    · rw [t.sources hxm w hw] at ha; exact h.srcData w a ha
 
-theorem track_frame {s s1 : State} {m x : Nat} (t : TrackPost s s1 m x) (hx : x < m) :
+theorem track_frame {s s1 : State} {m x : Nat} (t : TrackPost s s1 m x) (hx : x < m)
+    (hkm : (s.get m).kind = .memo) (hkx : (s.get x).kind ≠ .eff) :
     Frame s s1 (m + 1) where
   len := t.len
   kind := t.kind
@@ -201,6 +212,18 @@ theorem track_frame {s s1 : State} {m x : Nat} (t : TrackPost s s1 m x) (hx : x 
   sigVer i _ := t.ver i
   above i hi := ⟨t.core i (by omega) (by omega), .inl (t.st i)⟩
   log hl := by intro i; rw [t.log]; exact hl i
+  effCore i hk := by
+    by_cases h1 : i = m
+    · subst h1; rw [hkm] at hk; cases hk
+    · by_cases h2 : i = x
+      · subst h2; exact absurd hk hkx
+      · exact t.core i h1 h2
+  effD i _ hd := by
+    by_cases h1 : i = m
+    · subst h1; rw [t.gm] at hd; exact .inl hd
+    · by_cases h2 : i = x
+      · subst h2; rw [t.gx] at hd; exact .inl hd
+      · rw [t.go i h1 h2] at hd; exact .inl hd
 
 /-! ## clearSources -/
 
@@ -463,13 +486,18 @@ theorem startRun_inv {p : Prog} {s s4 : State} {m : Nat} (h : InvR p s) (t : Sta
       by_cases hw : w = m
       · subst hw; rw [t.seen_m] at he; cases he
       · rw [t.seen w hw] at he; rw [t.ver]; exact h.verLe w e he
+    · intro w a ha
+      rw [t.kind]
+      by_cases hw : w = m
+      · subst hw; rw [t.sources_m] at ha; cases ha
+      · rw [t.sources w hw] at ha; exact h.srcData w a ha
   · intro r hrr
     by_cases hrm : r = m
     · subst hrm; exact Nat.le_refl _
     · rw [t.running r hrm] at hrr; exact Nat.le_of_lt (hlow r hrr)
 
 theorem startRun_frame {p : Prog} {s s4 : State} {m : Nat} (h : InvR p s) (t : StartPost s s4 m)
-    (hst : (s.get m).st ≠ .clean)
+    (hkm : (s.get m).kind = .memo) (hst : (s.get m).st ≠ .clean)
     (hj : (s.get m).runs ≠ 0 → ∃ e ∈ (s.get m).seen, (s.get e.1).ver ≠ e.2.2) :
     Frame s s4 (m + 1) where
   len := t.len
@@ -489,5 +517,15 @@ theorem startRun_frame {p : Prog} {s s4 : State} {m : Nat} (h : InvR p s) (t : S
       omega
     simp only [List.erase_of_not_mem this]
   log hl := t.log hl hj
+  effCore i hk := by
+    have him : i ≠ m := by intro e; subst e; rw [hkm] at hk; cases hk
+    rw [t.go i him]
+    have : m ∉ (s.get i).subs := by
+      intro hc
+      exact h.srcData m i ((h.edge i m).1 hc) hk
+    simp only [List.erase_of_not_mem this]
+  effD i hk hd := by
+    have him : i ≠ m := by intro e; subst e; rw [hkm] at hk; cases hk
+    rw [t.go i him] at hd; exact .inl hd
 
 end Leptos.Reactive
